@@ -41,7 +41,7 @@ func runC15(r *Run) {
 		return pk != nil && ShortPkg(pk.Path()) == "trillian/ctfe"
 	}
 	nOpt := r.NilOptional(inCtfe, "*configpb*")
-	r.Floor("optional configuration parts used in ctfe", nOpt, 4)
+	r.Floor("optional configuration parts used in ctfe", nOpt, 2)
 	nIdx := r.ConstIndexGuarded(inCtfe)
 	r.Floor("constant indices on library call results", nIdx, 1)
 	r.Rule("C15.R2")
